@@ -20,7 +20,7 @@ def _clear_caches(ns_):
 PROPERTY = "C09"
 PL_OPS = ["evaluate", "evaluate_propositions", "assume", "reduce", "negate", "errors", "flatten", "to_json", "to_text", "to_short", "to_ge_polyhedron", "solve"]
 CFG_OPS = ["select", "add", "default_prios", "leafs", "ge_polyhedron", "to_json", "evaluate"]
-REGIONS = ["op:" + o for o in PL_OPS] + ["cfg-op:" + o for o in CFG_OPS] + ["interpretation-names-compound-id", "interpretation-names-top-id", "cache-key-equal-possible"]
+REGIONS = ["history:add", "history:assume", "history:negate", "history:reduce", "history-cfg", "history-plog"] + ["op:" + o for o in PL_OPS] + ["cfg-op:" + o for o in CFG_OPS] + ["interpretation-names-compound-id", "interpretation-names-top-id", "cache-key-equal-possible"]
 BOUNDS = ("one call of each public operation from a freshly built model (PL family, <=7 compounds) or configurator (CFG family), with symbolic thresholds/signs/boxes "
           "where the operation does not cross the Rust encoder, and symbolic arguments: dictionaries over ALL ids (leaves, sub-propositions, the top id) with symbolic "
           "presence flags and values; a deep snapshot (class, id, generated flag, bounds, value, sign, prio, default, children) is compared before/after. "
@@ -55,6 +55,15 @@ def instantiations(tier, seed):
             out.append({"part": "frame", "kind_": "cfg", "model": c, "op": op})
     for c in cfg.curated()[:3] + [cfg.SC(F.AL(1, F.V("x", -3, 3), F.V("y", -3, 3), id="R", sign=1))]:
         out.append({"part": "cache", "model": c})
+    # call histories of length 3: warm-up queries on the object, then a deriving operation, then queries on the derived object and on the original
+    hist_cfgs = cfg.cfg_family(tier, seed, n_quick=2, n_thorough=40)
+    for k, c in enumerate(hist_cfgs if tier == "thorough" else hist_cfgs[:5] + hist_cfgs[-4:]):
+        for derive in ("add", "assume", "negate", "reduce"):
+            out.append({"part": "history", "kind_": "cfg", "model": c, "derive": derive})
+    for k, sk in enumerate(pick[:6] if tier == "quick" else pick):
+        m = F.rename(sk, F.ALT_NAMES[(k + seed) % len(F.ALT_NAMES)])
+        for derive in ("assume", "negate", "reduce"):
+            out.append({"part": "history", "kind_": "plog", "model": m, "derive": derive})
     for mu in ("expect_mutation",):
         out.append({"kind": "mutant", "mutant": mu, "part": "frame", "kind_": "plog", "op": "flatten",
                     "model": F.symbolize(F.AL(2, F.a(), F.i(), F.AL(1, F.b(), F.c(), id="B", sign=1), id="A", sign=1))})
@@ -65,10 +74,120 @@ def _dummy_solver(P, objs):
     return [(np.zeros(P.A.shape[1], dtype=int), 0, 6) for _ in objs]
 
 
+def _observe(ns, obj, leaves):
+    """canonical, comparable summary of everything a later query on `obj` can return (concrete objects only)"""
+    out = {}
+    if issubclass(obj.__class__, ns.puan.variable):
+        return {"var": (obj.id, int(obj.bounds.lower), int(obj.bounds.upper))}
+    out["repr"] = sorted(repr(x) for x in obj.flatten())
+    out["bounds"] = sorted((str(x.id), int(x.bounds.lower), int(x.bounds.upper)) for x in obj.flatten())
+    out["errors"] = [str(e) for e in obj.errors()]
+    try:
+        out["json"] = obj.to_json()
+    except Exception as e:    # noqa
+        out["json"] = "raises %s" % type(e).__name__
+    interp = {l: lo for l, (lo, hi) in leaves.items()}
+    ev = obj.evaluate(dict(interp))
+    out["evaluate"] = (int(ev.lower), int(ev.upper))
+    try:
+        P = obj.to_ge_polyhedron(True)
+        out["poly"] = (np.asarray(P).astype(int).tolist(), [str(v.id) for v in P.variables], [(int(v.bounds.lower), int(v.bounds.upper)) for v in P.variables])
+    except (S.Abort, S.Inconclusive, S.HarnessError):
+        raise
+    except BaseException as e:    # noqa  (the Rust encoder panics -> pyo3 PanicException, a BaseException, on models with pre-fixed parts: outside C01's precondition)
+        out["poly"] = "raises %s" % type(e).__name__
+    if isinstance(obj, ns.cc.StingyConfigurator):
+        P = obj.ge_polyhedron
+        out["cfgpoly"] = (np.asarray(P).astype(int).tolist(), [str(v.id) for v in P.variables], [int(v) for v in P.default_prio_vector])
+        out["prios"] = sorted((str(k), v) for k, v in obj.default_prios.items())
+        out["leafs"] = [str(v.id) for v in obj.leafs()]
+        out["select"] = [sorted((str(a), int(b)) for a, b in s[0].items()) for s in obj.select({obj.leafs()[0].id: 1}, solver=_first_feasible)]
+    return out
+
+
+def _first_feasible(P, objs):
+    """deterministic exact-enough solver for comparisons: best of all 0/1 points (<= 16 columns), else the zero vector"""
+    import itertools
+    A = np.asarray(P.A).astype(int)
+    b = np.asarray(P.b).astype(int)
+    if A.shape[1] > 14:
+        return [(np.zeros(A.shape[1], dtype=int), 0, 6) for _ in objs]
+    pts = np.array(list(itertools.product((0, 1), repeat=A.shape[1])), dtype=int).reshape(-1, A.shape[1])
+    feas = pts[(pts @ A.T >= b).all(axis=1)]
+    return [((feas[int(np.argmax(feas @ np.asarray(o).astype(int)))] if len(feas) else None), 0, 6) for o in objs]
+
+
+def _derive(ns, obj, how, leaves):
+    if how == "add":
+        return obj.add(ns.pg.Any("zz1", "zz2", variable="ZZ"))
+    if how == "assume":
+        l = sorted(leaves)[0]
+        return obj.assume({l: leaves[l][1]})
+    if how == "negate":
+        return obj.negate()
+    if how == "reduce":
+        return obj.reduce()
+    raise S.HarnessError(how)
+
+
+def _history(ns, spec, run):
+    model_spec, how = spec["model"], spec["derive"]
+    leaves = {k: (int(lo), int(hi)) for k, (lo, hi) in pl.leaves(model_spec).items()}
+    _clear_caches(ns)
+    try:
+        probe = pl.build(ns, model_spec, {})
+    except Exception as e:    # noqa
+        return run.skipped("constructor rejects the instantiation: %s" % type(e).__name__)
+    if probe.errors() != [] or (how == "add" and not isinstance(probe, ns.cc.StingyConfigurator)):
+        return run.skipped("not applicable to this model")
+
+    def fn(ctx):
+        _clear_caches(ns)
+        res = {}
+        try:
+            # cold: derive from a fresh object, observe the derived object
+            cold_src = pl.build(ns, model_spec, {})
+            cold = _observe(ns, _derive(ns, cold_src, how, leaves), leaves)
+            fresh = _observe(ns, pl.build(ns, model_spec, {}), leaves)
+            # warm: every query first (leaf-only interpretations: the open finding about named sub-propositions is excluded), then derive
+            m = pl.build(ns, model_spec, {})
+            _observe(ns, m, leaves)
+            m.evaluate_propositions({l: lo for l, (lo, hi) in leaves.items()})
+            m.flatten(); m.to_text(); m.to_short()
+            warm_derived = _derive(ns, m, how, leaves)
+            warm = _observe(ns, warm_derived, leaves)
+            after = _observe(ns, m, leaves)
+            res = dict(cold=cold, warm=warm, fresh=fresh, after=after, err=None)
+        except Exception as e:    # noqa
+            res = dict(err="%s: %s" % (type(e).__name__, e))
+        return res
+
+    def on_path(ctx, d):
+        run.path(ctx, free=False)
+        run.region("history:" + how)
+        run.region("history-cfg" if spec["kind_"] == "cfg" else "history-plog")
+
+        def conc(m):
+            return {"env": {}}
+        if d["err"] is not None:
+            run.obligation(ctx, "history-raises", True, conc, extra=d["err"])
+            return
+        diff = [k for k in d["cold"] if d["cold"].get(k) != d["warm"].get(k)]
+        run.obligation(ctx, "derived-object-independent-of-earlier-queries", bool(diff), conc, extra="differs in %s" % diff)
+        diff2 = [k for k in d["fresh"] if d["fresh"].get(k) != d["after"].get(k)]
+        run.obligation(ctx, "object-answers-like-fresh-after-history", bool(diff2), conc, extra="differs in %s" % diff2)
+        run.sample({"model": pl.show(model_spec), "history": ["all queries", how, "all queries"]})
+
+    st = S.explore(fn, on_path, max_paths=5, wall=600)
+    return run.result(st)
+
+
 def run_inst(spec, run):
     ns = E.load_repo()
     if spec["part"] == "cache":
         return _cache(ns, spec, run)
+    if spec["part"] == "history":
+        return _history(ns, spec, run)
     mu = spec.get("mutant")
     model_spec, op = spec["model"], spec["op"]
     iscfg = spec["kind_"] == "cfg"
